@@ -34,6 +34,36 @@ func init() {
 	Defs["C14"] = &Def{
 		Draw: func(t *rapid.T, r *Recorder) *Replay {
 			v := genLevelVariant(t, r, func(o *gen.Opts, k *gen.KOpts) { k.Rich = true; o.Comments = true })
+			// Entries under both key forms for one field, with different values: which one wins is
+			// not documented (so no other check draws them), but the output must not depend on
+			// map iteration order or on the order of the keys in the YAML file.
+			n := 0
+			for _, oc := range model.Occurrences(v.File, v.Cfg.Types) {
+				if oc.Embed || oc.FullKey == "" || oc.FullKey == oc.TypeKey || rapid.IntRange(0, 3).Draw(t, "double") != 0 {
+					continue
+				}
+				n++
+				switch rapid.IntRange(0, 2).Draw(t, "doublekind") {
+				case 0:
+					if v.Cfg.Validators == nil {
+						v.Cfg.Validators = map[string][]string{}
+					}
+					v.Cfg.Validators[oc.FullKey] = []string{fmt.Sprintf("%s.V(%d)", gen.SupportPath, 100+n)}
+					v.Cfg.Validators[oc.TypeKey] = []string{fmt.Sprintf("%s.V(%d)", gen.SupportPath, 200+n)}
+				case 1:
+					if v.Cfg.PlanModifiers == nil {
+						v.Cfg.PlanModifiers = map[string][]string{}
+					}
+					v.Cfg.PlanModifiers[oc.FullKey] = []string{fmt.Sprintf("%s.PM(%d)", gen.SupportPath, 100+n)}
+					v.Cfg.PlanModifiers[oc.TypeKey] = []string{fmt.Sprintf("%s.PM(%d)", gen.SupportPath, 200+n)}
+				default:
+					if v.Cfg.NameOverrides == nil {
+						v.Cfg.NameOverrides = map[string]string{}
+					}
+					v.Cfg.NameOverrides[oc.FullKey] = fmt.Sprintf("dbl%d_full", n)
+					v.Cfg.NameOverrides[oc.TypeKey] = fmt.Sprintf("dbl%d_type", n)
+				}
+			}
 			rp := &Replay{Variants: []*pipeline.Variant{v}}
 			c := c14Case{Runs: 6}
 			for i := 0; i < 4; i++ {
